@@ -471,7 +471,7 @@ def runMemo (p : Prog) (f : Nat) (s : State) (id : Nat) : State × Bool :=
   if changed then
     let s := s.emit (.changed id)
     let s := (s.get id).subs.foldl
-      (fun s x => if s.obs == some x then s else markDirty (f + 1) s x) s
+      (fun s x => if s.obs == some x then s else markDirty (fuelFor p) s x) s
     (s, true)
   else (s, false)
 
@@ -493,11 +493,11 @@ theorem clearSources_obs (s : State) (id : Nat) : (clearSources s id).obs = s.ob
 
 theorem runMemo_eq (p : Prog) (f : Nat) (s : State) (id : Nat) :
     runMemo p f s id =
-      finishRun f (evalE (readNode (upd p f)) (fun s _ _ => s) id (bodyOf p id) (startRun s id)).1 id
+      finishRun p.length (evalE (readNode (upd p f)) (fun s _ _ => s) id (bodyOf p id) (startRun s id)).1 id
         (s.get id).val s.obs (evalE (readNode (upd p f)) (fun s _ _ => s) id (bodyOf p id) (startRun s id)).2 := by
   have hobs : (noteRun (clearSources (s.upd id fun n => { n with val := none }) id) id).obs = s.obs := by
     rw [noteRun_obs, clearSources_obs]; rfl
-  unfold runMemo finishRun storeVal notifySubs startRun
+  unfold runMemo finishRun storeVal notifySubs startRun fuelFor
   simp only [hobs]
 
 /-- what the proof needs from the program: memo bodies read smaller data nodes and do not write -/
@@ -541,8 +541,8 @@ theorem runMemo_spec {p : Prog} (hp : MemoOK p) {f : Nat} (hu : UpdOK p (upd p f
     rcases (fr05.above w (by have := sub_gt w hw; omega)).2 with h | h
     · rw [h]; exact h0w
     · rw [h]; simp
-  obtain ⟨fr, hflag, hverup, hmarked, hmarkedE⟩ := finishRun_rel f (s0.get m).val s0.obs v ep.inv ep.loc hsubsNC
-  generalize finishRun f s5 m (s0.get m).val s0.obs v = r8 at fr hflag hverup hmarked hmarkedE
+  obtain ⟨fr, hflag, hverup, hmarked, hmarkedE⟩ := finishRun_rel p.length (s0.get m).val s0.obs v ep.inv ep.loc hsubsNC
+  generalize finishRun p.length s5 m (s0.get m).val s0.obs v = r8 at fr hflag hverup hmarked hmarkedE
   obtain ⟨s8, ch⟩ := r8
   simp only at fr hflag hverup hmarked hmarkedE
   have hsaved : ∀ o, s0.obs = some o → (s5.get o).running = true ∧ o ≠ m := by
